@@ -60,7 +60,8 @@ def lexOK (n : Text.WNet) (T : Text.WDef) : Bool :=
 def fragFull (n : Text.WNet) (T : Text.WDef) : Bool :=
   fragC04 n T && (match astOf n T with | some m => tokOK m.toI | none => false) && lexOK n T
 
-/-- **c04_text.**  `readV (composeV n) ≈ n` on the fragment: the text the writer produces for a netlist of `fragFull`,
+/-- **c04_text.**  The top module's view is preserved by write-then-read (options `optsFrag` = `write_blackbox=False`, NOT the
+    default of `sdn.compose`; see docs/verilog.md §2a) on the fragment: the text the writer produces for a netlist of `fragFull`,
     read by the whole reader from characters (`lexV`, `parseV`, `elabDesign`), is accepted, its top is the netlist's top
     definition, and that definition shows the same view. -/
 theorem c04_text (n : Text.WNet) (T : Text.WDef) (h : fragFull n T = true) :
